@@ -179,6 +179,67 @@ func verifyFunc(g *Gen, fi *funcInfo, ct *Contract, lit *ast.FuncLit, parentCt *
 			}
 			e.st.vars[obj] = e.havocVal(obj.Name(), obj.Type())
 		}
+		// Variables of the enclosing function that are in scope at the literal but not mentioned by it can still be named
+		// by the closure's contract (and by channel invariants): they are read-only inputs, provided nothing ever
+		// reassigns them (so their value at the spawn, inside the closure and at a later receive is the same).
+		reassigned := map[types.Object]bool{}
+		ast.Inspect(fi.decl.Body, func(n ast.Node) bool {
+			switch x := n.(type) {
+			case *ast.AssignStmt:
+				if x.Tok != token.DEFINE {
+					for _, l := range x.Lhs {
+						if id, ok := l.(*ast.Ident); ok {
+							if o := info.ObjectOf(id); o != nil {
+								reassigned[o] = true
+							}
+						}
+					}
+				} else {
+					for _, l := range x.Lhs {
+						if id, ok := l.(*ast.Ident); ok {
+							if o := info.Uses[id]; o != nil {
+								reassigned[o] = true // redeclaration in := assigns an existing variable
+							}
+						}
+					}
+				}
+			case *ast.IncDecStmt:
+				if id, ok := x.X.(*ast.Ident); ok {
+					if o := info.ObjectOf(id); o != nil {
+						reassigned[o] = true
+					}
+				}
+			case *ast.UnaryExpr:
+				if x.Op == token.AND {
+					if id, ok := x.X.(*ast.Ident); ok {
+						if o := info.ObjectOf(id); o != nil {
+							reassigned[o] = true
+						}
+					}
+				}
+			case *ast.RangeStmt:
+				for _, l := range []ast.Expr{x.Key, x.Value} {
+					if id, ok := l.(*ast.Ident); ok && x.Tok != token.DEFINE {
+						if o := info.ObjectOf(id); o != nil {
+							reassigned[o] = true
+						}
+					}
+				}
+			}
+			return true
+		})
+		for sc := fi.pkg.Types.Scope().Innermost(lit.Pos()); sc != nil && sc != fi.pkg.Types.Scope(); sc = sc.Parent() {
+			for _, n := range sc.Names() {
+				obj, ok := sc.Lookup(n).(*types.Var)
+				if !ok || obj.Pos() >= lit.Pos() || reassigned[obj] {
+					continue
+				}
+				if _, done := e.st.vars[obj]; done {
+					continue
+				}
+				e.st.vars[obj] = e.havocVal(obj.Name(), obj.Type())
+			}
+		}
 	}
 	if ftype.Params != nil {
 		for _, fld := range ftype.Params.List {
@@ -904,7 +965,23 @@ func (e *Exec) applyContract(fn *types.Func, ct *Contract, f FuncV, args []Val, 
 			e.warn("ensures of %s mentioning path events is not visible to this caller: %s", ct.Key, truncate(en.Text, 80))
 			continue
 		}
-		e.assume(e.specBool(en, env2))
+		nerr := len(e.errs)
+		t := e.specBool(en, env2)
+		if len(e.errs) > nerr {
+			// a clause that names a local of the callee means nothing to a caller: not exported
+			skip := true
+			for _, m := range e.errs[nerr:] {
+				if !strings.Contains(m, "unknown identifier") && !strings.Contains(m, "not bound") {
+					skip = false
+				}
+			}
+			if skip {
+				e.errs = e.errs[:nerr]
+				e.warn("ensures of %s naming a local of the callee is not visible to this caller: %s", ct.Key, truncate(en.Text, 80))
+				continue
+			}
+		}
+		e.assume(t)
 	}
 	e.havocBoxed()
 	return res
